@@ -19,6 +19,8 @@ pub struct Rsi<T, V> {
     last_val: T,
     q_vals: VecDeque<T>,
     out: Option<T>,
+    // number of most recent consecutive values that are equal to the newest one.
+    run_len: usize,
 }
 
 impl<T, V> Rsi<T, V>
@@ -39,6 +41,7 @@ where
             last_val: T::zero(),
             q_vals: VecDeque::with_capacity(window_len),
             out: None,
+            run_len: 0,
         }
     }
 }
@@ -57,6 +60,11 @@ where
         if self.q_vals.is_empty() {
             self.old_ref = val;
             self.last_val = val;
+        }
+        if self.q_vals.back() == Some(&val) {
+            self.run_len += 1;
+        } else {
+            self.run_len = 1;
         }
         let window_len = T::from(self.window_len).expect("can convert");
         if self.q_vals.len() >= self.window_len {
@@ -79,6 +87,12 @@ where
             self.avg_gain = self.avg_gain + change / window_len;
         } else {
             self.avg_loss = self.avg_loss + change.abs() / window_len;
+        }
+
+        if self.run_len >= self.q_vals.len() && self.old_ref == val {
+            // No change inside the window: drop the rounding residue of the changes that left.
+            self.avg_gain = T::zero();
+            self.avg_loss = T::zero();
         }
 
         if self.q_vals.len() < self.window_len {
